@@ -5,14 +5,15 @@
     by the name the deserializer reports for it, records in schema order, decimals as strings.
     [dval_any Sc n v]: the callbacks the specification's reading of v prescribes for a dynamically
     typed consumer (bit-exact floats, byte-exact strings/bytes/fixed, branch, symbol, decimal text).
-    PROVED here: the dynamically typed round trip for every well-formed schema and every conforming
-    value within the documented limits. Typed targets (structs, enums-as-unions, Option, maps,
-    sequences, borrowed &str/&[u8]): see props/C12.v (skipping) and the correspondence run; the full
-    typed statement is kept visible below as [C01_typed_statement]. *)
+    PROVED here: the round trip for every well-formed schema and every conforming value within the
+    documented limits, for the dynamically typed consumer (C01_any) and for ordinary Rust data
+    types (C01_typed: structs, enums-as-unions, Option, maps, sequences; strings/bytes arrive as
+    borrows of the input in slice mode, erase_borrow forgets only the offset). *)
 From Coq Require Import List NArith ZArith.
 Require Import Base Schema Varint Sval Ser Target Reader De AvroValue Encoding Denote Wf.
 Require SerProofs DeProofs.
-Require Import RoundTripProofs.
+Require Import RoundTripProofs RoundTripTyped.
+Require DS7.
 Import ListNotations.
 
 Theorem C01_any : forall Sc cfg root v slow fuel,
@@ -71,16 +72,31 @@ Theorem C01_encoding_prefix_free : forall Sc n v1 v2 r1 r2,
   spec_encode Sc n v1 ++ r1 = spec_encode Sc n v2 ++ r2 -> v1 = v2 /\ r1 = r2.
 Proof. exact spec_encode_injective_prefix. Qed.
 
-(* the statement for ordinary Rust data types (not proved here; decided by the correspondence run
-   over typed targets and by native round trips of a family of Rust types) *)
-Definition C01_typed_statement : Prop := forall Sc cfg root v slow fuel,
-  schema_wf Sc = true -> fnode_at Sc 0 = Some root -> conforms Sc root v = true ->
-  SerProofs.value_limits Sc root v = true -> SerProofs.sizes_ok v = true -> rt_limits Sc cfg root v = true ->
+(* ordinary Rust data types: [typed_target Sc tf n] (spec/Denote.v) is the natural Rust shape of a
+   node unfolded tf levels -- i32/i64/f32/f64/bool/str/bytes per primitive, a struct with all fields
+   per record, an enum keyed by branch name per union (Option for [null,T] / [T,null]), seq, map
+   with str keys, unit-variant enum per Avro enum, (u32,u32,u32) per duration -- and
+   [dval_typed] the callbacks that value must produce. [tcost] is the depth budget needed (an Avro
+   enum costs one level through a typed target). *)
+Theorem C01_typed : forall Sc cfg root v slow fuel tf,
+  schema_wf Sc = true -> fnode_at Sc 0 = Some root ->
+  conforms Sc root v = true ->
+  SerProofs.value_limits Sc root v = true -> SerProofs.sizes_ok v = true ->
+  seq_limits cfg v = true ->
+  (DS7.tcost (canon v) <= c_depth cfg)%nat ->
+  (Z.of_nat (length (spec_encode Sc root v)) <= I64_MAX)%Z ->
   (DeProofs.de_fuel (canon v) <= fuel)%nat ->
+  (depth_cost (canon v) < tf)%nat ->
   exists bs d,
     to_datum Sc slow (present Sc root v) = Ok bs
-    /\ de_datum fuel Sc cfg (typed_target Sc fuel root) (slice_reader bs) = Ok (d, 0%N)
+    /\ de_datum fuel Sc cfg (typed_target Sc tf root) (slice_reader bs) = Ok (d, 0%N)
     /\ erase_borrow d = dval_typed Sc root v.
+Proof. exact roundtrip_typed. Qed.
+
+(* the three extra hypotheses of the typed statement cannot be dropped *)
+Check DS7.de_typed_enum_needs_depth.
+Check DS7.de_typed_needs_unfolding.
+Check DS7.de_typed_needs_node_wf.
 
 (* non-vacuity: a record with an array of unions, a map and a decimal meets every hypothesis *)
 Check roundtrip_any_instance.
